@@ -22,7 +22,8 @@ REQUIRED_THEOREMS = [
     'C07_callerorder_counterexample', 'C07_legacy_stable_partial', 'C07_th_bridge',
     'C07_set_n_ids_counterexample', 'C07_set_n_ids_fresh', 'C07_set_n_ids_all_selected',
     'C07_set_n_ids_history', 'C07_set_n_ids_keeps_selection', 'C07_names_reset', 'C07_namesOk_step',
-    'C07_equiv_indiv_return_eta', 'C07_set_n_ids_raise_counterexample']
+    'C07_equiv_indiv_return_eta', 'C07_set_n_ids_raise_counterexample',
+    'C07_rejected_selection_unchanged', 'C07_rejected_calls_erased']
 RULE = ('wrapped model in {Gaussian, LogNormal} x {centred, non-centred}, TruncatedGaussian, Pooled, '
         'Heterogeneous; n_dim 1..6, n_cov 1..3, n_ids 1..5; selection = constructor default or a random '
         'non-empty list of in-range [param, dim] pairs of every size, any order, with duplicates, given as '
@@ -30,7 +31,11 @@ RULE = ('wrapped model in {Gaussian, LogNormal} x {centred, non-centred}, Trunca
         '(optionally followed by set_dim_names / a second selection) and through '
         'LinearCovariateModel.set_population_parameters; random covariate matrices; parameters inside the '
         'support plus a boundary stream (zero beta, zero covariates, non-positive shifted scales, '
-        'non-positive observations, wrong lengths, out-of-range / empty selections); non-trivial = >=2 '
+        'non-positive observations, wrong lengths, out-of-range / empty selections); REJECTED selections '
+        '(a pair out of range / empty) interleaved in the configuration history, the model used afterwards; '
+        'per case a whole-number stream: vartheta_0, beta (and observations, eta, upstream sensitivities) '
+        'as float64 / int64 / int32 arrays and Python ints with FRACTIONAL covariates, through every entry '
+        'point of CovariatePopulationModel and LinearCovariateModel; non-trivial = >=2 '
         'selected pairs or n_dim >= 2; distinct = distinct (kind, n_dim, n_cov, n_selected, route)')
 ASSUMPTIONS = [
     'the wrapped population model is one of chi\'s elementary models; its own density / sensitivities '
@@ -209,6 +214,18 @@ def gen_case(rng, force_kind=None, wide=False):
         else:
             post.append(['R'])
     ops = pre + ops + post
+    # a REJECTED selection somewhere in the history (a caller's try/except around a user-supplied selection):
+    # some pair out of range whatever the number of rows is; the model has to go on as if it had not been made
+    if rh.random() < 0.3:
+        for _ in range(int(rh.integers(1, 3))):
+            bad = rand_sel() if rh.random() < 0.7 else []
+            d_ok = int(rh.integers(n_dim))
+            wrong = [[50 + int(rh.integers(3)), d_ok], [int(rh.integers(pd_)), n_dim + int(rh.integers(3))],
+                     [-1 - int(rh.integers(2)), d_ok], [0, -1 - int(rh.integers(2))]][int(rh.integers(4))]
+            bad.insert(int(rh.integers(len(bad) + 1)), wrong)
+            if rh.random() < 0.08:
+                bad = []
+            ops.insert(int(rh.integers(len(ops) + 1)), ['X', bad])
     form = str(rng.choice(['lists', 'tuples', 'ndarray']))
     cov_names = None if rng.random() < 0.5 else ['age', 'wt', 'sex', 'bmi', 'crcl'][:n_cov]
     dim_names = None if rng.random() < 0.6 else ['a', 'b', 'c', 'd', 'e', 'f', 'g', 'h', 'k'][:n_dim]
@@ -400,6 +417,23 @@ def _run_case(ctx, chi, case):
             explicit = norm_sel(o[1])
             model_ops.append(o)
             outcomes.append('ok')
+        elif o[0] == 'X':
+            before = (cpm.n_parameters(), list(cpm.get_parameter_names()),
+                      list(cpm.get_parameter_names(exclude_dim_names=True)))
+            out = call(cpm.set_population_parameters, as_input(o[1], case['form']))
+            out = 'ok' if out is None else out
+            S(ctx, 'C07.set_population_parameters', out != 'ok', inp,
+              {'raised': out, 'indices': o[1], 'rows': pd_cur, 'expected': 'rejected'})
+            if case['form'] != 'ndarray' or o[1]:
+                mo = ctx.model('C07.select', pd_cur, n_dim, [list(x) for x in o[1]])
+                ctx.agree('C07.select.outcome', out, mo[0], inp)
+            after = (cpm.n_parameters(), list(cpm.get_parameter_names()),
+                     list(cpm.get_parameter_names(exclude_dim_names=True)))
+            S(ctx, 'C07.set_population_parameters/unchanged_after_raise', before == after, inp,
+              {'rejected_indices': o[1], 'raised': out, 'n_parameters_before': before[0],
+               'n_parameters_after': after[0], 'names_before': before[1], 'names_after': after[1]})
+            if out == 'ok':
+                return
         elif o[0] == 'D':
             cpm.set_dim_names(o[1])
             base.set_dim_names(o[1])
@@ -694,6 +728,141 @@ def _run_case(ctx, chi, case):
     # ---- sampling: exact replay of the primitive stream
     sample_check(ctx, chi, cpm, base, kind, cname, params, th, cov, n_ids, n_dim, pd_, n_cov, sel_l, covl,
                  case['seed'], inp, scales_pos)
+
+    # ---- whole-number parameters handed over as ints, with fractional covariates
+    number_types_check(ctx, chi, cpm, base, lcm2 if perm is not None else None, kind, cname, order, stored,
+                       n_ids, n_dim, n_cov, pd_, sel_l, inp, case)
+
+
+def _forms(x, shape=None):
+    """the same whole numbers as a float64 array, an int64 array, an int32 array, Python ints"""
+    xf = np.asarray(x, float)
+    out = [('float64_array', xf.copy()), ('int64_array', xf.astype(np.int64)),
+           ('int32_array', xf.astype(np.int32))]
+    if xf.ndim == 1:
+        out.append(('python_int_list', [int(v) for v in xf]))
+    return out
+
+
+def number_types_check(ctx, chi, cpm, base, lcm2, kind, cname, order, stored, n_ids, n_dim, n_cov, pd_, sel_l,
+                       inp, case):
+    """vartheta_0 and beta hold WHOLE numbers and arrive as Python ints / integer arrays (chi's own examples:
+    `parameters = [3, 2, 4, 2, ...]`), the covariates are fractional: vartheta_i = vartheta_0 + sum_c beta_c chi_ic
+    is fractional and is what every entry point has to use. Reference: the formula and the wrapped model
+    evaluated per individual (never the float call of the same method). Whole-number observations, eta and
+    upstream sensitivities go through the same forms. All values are derived from the case's fd_seed."""
+    rng = np.random.default_rng([int(case['fd_seed']), 716])
+    n_sel = len(order)
+    dyadic = kind in ('P', 'H')
+    fr = np.array([0.125, 0.25, 0.375, 0.5, 0.625, 0.75, 0.875])
+    if dyadic:
+        theta0 = rng.integers(-4, 5, size=(pd_, n_dim)).astype(float)
+        beta = rng.integers(-2, 3, size=(n_sel, n_cov)).astype(float)
+        cov = (2 * rng.integers(-4, 4, size=(n_ids, n_cov)) + 1) / 4.0
+    else:
+        theta0 = np.vstack([rng.integers(1, 4, n_dim), rng.integers(1, 4, n_dim)]).astype(float)
+        beta = np.array([[float(rng.integers(0, 2)) if p == 1 else float(rng.integers(-1, 3))
+                          for _ in range(n_cov)] for (p, d) in order]).reshape(n_sel, n_cov)
+        cov = rng.choice(fr, size=(n_ids, n_cov))
+    if not np.any(beta != 0):
+        beta[int(rng.integers(n_sel)), int(rng.integers(n_cov))] = 1.0
+    eta = rng.integers(-2, 3, size=(n_ids, n_dim)).astype(float)
+    w = None if rng.random() < 0.3 else rng.integers(-2, 3, size=(n_ids, n_dim)).astype(float)
+    seed = int(rng.integers(0, 2 ** 31))
+    params = np.concatenate([theta0.flatten(), beta.flatten()])
+    th = th_formula(theta0, beta, cov, order)
+    obs_whole = True
+    if kind in ('Gnc', 'LNnc'):
+        obs = eta
+    elif kind == 'P':
+        obs, obs_whole = th[:, 0, :].copy(), False
+    elif kind == 'H':
+        obs, obs_whole = np.array([th[i, i, :] for i in range(n_ids)]), False
+    elif kind == 'Gc':
+        obs = rng.integers(-1, 5, size=(n_ids, n_dim)).astype(float)
+    else:
+        obs = rng.integers(1, 5, size=(n_ids, n_dim)).astype(float)
+    winp = dict(inp, whole_numbers={'parameters': params, 'covariates': cov, 'observations': obs, 'eta': eta,
+                                    'dlogp_dpsi': w, 'beta_order': [list(x) for x in order]})
+    T = 'C07.number_types/'
+
+    # -- the stand-alone covariate model: beta and vartheta_0 are separate arguments
+    if lcm2 is not None and set(stored) == set(order):
+        beta_l = beta[[order.index(pd) for pd in stored]]
+        g = rng.integers(-3, 4, size=th.shape).astype(float)
+        exp_dpop = np.sum(g, axis=0).flatten()
+        exp_dcov = np.array([np.sum(g[:, p, d] * cov[:, c]) for (p, d) in stored for c in range(n_cov)])
+        for bn, bv in _forms(beta_l.flatten()) + [(n_ + '/matrix', v_) for n_, v_ in _forms(beta_l)[:2]]:
+            for tn, tv in _forms(theta0):
+                out = call(lcm2.compute_population_parameters, bv, tv, cov)
+                S(ctx, T + 'transform', not isinstance(out, str) and core.close(np.asarray(out, float), th),
+                  winp, {'parameters_as': bn, 'pop_parameters_as': tn, 'chi': out, 'formula': th})
+        for gn, gv in _forms(g)[:2]:
+            for bn, bv in _forms(beta_l.flatten())[:2]:
+                out = call(lcm2.compute_sensitivities, bv, theta0.astype(np.int64) if bn != 'float64_array'
+                           else theta0, cov, gv)
+                ok = (not isinstance(out, str) and core.close(np.asarray(out[0], float), exp_dpop)
+                      and core.close(np.asarray(out[1], float), exp_dcov))
+                S(ctx, T + 'grad/LinearCovariateModel', ok, winp,
+                  {'parameters_as': bn, 'dlogp_dvartheta_as': gn, 'chi': out, 'expected': [exp_dpop, exp_dcov]})
+
+    # -- the population model: references from the wrapped model, one individual at a time
+    ref_ll = call(per_ind_ll, base, kind, th, obs)
+    ref_psi = call(per_ind_indiv, base, kind, th, eta)
+    ref_sens = {r: call(per_ind_sens, base, kind, th, obs, w, cov, order, n_dim, r) for r in (False, True)}
+
+    def replay_sample():
+        g_ = np.random.default_rng(seed)
+        return np.array([np.asarray(base.sample(th[i], n_samples=1, seed=g_))[0] for i in range(n_ids)], float)
+    ref_smp = call(replay_sample)
+    if kind != 'TG' and not isinstance(ref_ll, str):
+        me = ctx.model('C07.eval', kind, n_ids, n_dim, pd_, n_cov, sel_l, list(params), [list(r) for r in cov],
+                       [list(r) for r in obs], [list(r) for r in eta])
+    else:
+        me = None
+    o_forms = _forms(obs)[:2] if obs_whole else [('float64_array', obs)]
+    e_forms = _forms(eta)[:2]
+    w_forms = [('none', None)] if w is None else _forms(w)[:2]
+    combos = [(pf, 0) for pf in range(4)] + [(1, 1), (0, 1), (3, 1)]
+    p_forms = _forms(params)
+    for pf, of in combos:
+        pn, pv = p_forms[pf]
+        on, ov = o_forms[min(of, len(o_forms) - 1)]
+        en, ev = e_forms[of]
+        wn, wv = w_forms[min(of, len(w_forms) - 1)]
+        how = {'parameters_as': pn, 'observations_as': on, 'eta_as': en, 'dlogp_dpsi_as': wn}
+        ll = call(cpm.compute_log_likelihood, pv, ov, cov)
+        ll = ll if isinstance(ll, str) else float(ll)
+        S(ctx, T + 'equiv_ll/' + cname, core.close(ll, ref_ll), winp, dict(how, chi=ll, per_individual=ref_ll))
+        if me is not None and of == 0:
+            ctx.agree('C07.number_types.ll', ll, me[1], winp)
+        psi = call(cpm.compute_individual_parameters, pv, ev, cov)
+        psi = psi if isinstance(psi, str) else np.asarray(psi, float)
+        S(ctx, T + 'equiv_indiv/' + cname, core.close(psi, ref_psi), winp,
+          dict(how, chi=psi, per_individual=ref_psi))
+        if me is not None and of == 0:
+            ctx.agree('C07.number_types.indiv', psi, me[3], winp)
+        for reduce in (False, True):
+            out = call(cpm.compute_sensitivities, pv, ov, cov, dlogp_dpsi=None if wv is None else wv.copy(),
+                       reduce=reduce)
+            spec = ref_sens[reduce]
+            if isinstance(out, str) or isinstance(spec, str):
+                ok = False
+            elif not math.isfinite(spec[0]):
+                ok = core.close(float(out[0]), spec[0])
+            elif reduce:
+                ok = core.close(float(out[0]), spec[0]) and core.close(
+                    np.asarray(out[1], float), np.concatenate([spec[1].flatten(), spec[2]]), rtol=1e-8, atol=1e-10)
+            else:
+                ok = (core.close(float(out[0]), spec[0])
+                      and core.close(np.asarray(out[1], float), spec[1], rtol=1e-8, atol=1e-10)
+                      and core.close(np.asarray(out[2], float), spec[2], rtol=1e-8, atol=1e-10))
+            S(ctx, T + 'grad/' + cname, ok, winp, dict(how, reduce=reduce, chi=out, per_individual=spec))
+        smp = call(cpm.sample, pv, cov, n_samples=n_ids, seed=seed)
+        smp = smp if isinstance(smp, str) else np.asarray(smp, float)
+        S(ctx, T + 'equiv_sample/' + cname, core.close(smp, ref_smp), winp,
+          dict(how, chi=smp, per_row=ref_smp))
+    ctx.case('number-types/%s' % kind)
 
 
 def composed_check(ctx, chi, cpm, kind, cname, params, obs, cov, w, n_ids, n_dim, inp, th, eta):
